@@ -1,2 +1,136 @@
-/-! Line driver for C13 (stub; replaced when the model is written). -/
-def main : IO Unit := pure ()
+import MpVerif.C13.Model
+import Std.Data.HashMap
+/-!
+Line driver for C13.  One op per line, one canonical output line per op; no logic of its own.
+
+* `arith <op> <a> <b>`  (`add sub mul div sqrt tof`, operands as binary64 bit patterns in hex):
+  the result of the model's rounding functions as an exact rational
+* `consts`: the model's numeric constants
+* `run <isint> <ubErr> <lbx> <ubx> <lby> <uby>  <fn-dom x4> <acc x2> <mono> <periodic> <per x2> <nbp> <bp..>  <n> {<k> <idx> <arg> <val>}*n`:
+  the skeleton `run` on the function record whose five oracles are the given table
+* `val <lbx> <ubx> <n> <x..> <y..>`: the verified validators on an output of the real code
+-/
+open MpVerif.C13
+
+def hexDigit (c : Char) : Option Nat :=
+  if '0' ≤ c ∧ c ≤ '9' then some (c.toNat - '0'.toNat)
+  else if 'a' ≤ c ∧ c ≤ 'f' then some (c.toNat - 'a'.toNat + 10)
+  else none
+
+def parseHex (s : String) : Option Nat :=
+  if s.isEmpty then none else
+  s.foldl (fun acc c => match acc, hexDigit c with | some a, some d => some (a * 16 + d) | _, _ => none) (some 0)
+
+/-- decode an IEEE binary64 bit pattern -/
+def ofBits (b : Nat) : OV :=
+  let sign : Nat := b / 2 ^ 63
+  let e : Nat := (b / 2 ^ 52) % 2048
+  let m : Nat := b % 2 ^ 52
+  if e = 2047 then (if m = 0 then (if sign = 1 then .ninf else .pinf) else .nan)
+  else
+    let v : Rat := if e = 0 then ((m : Nat) : Rat) * pow2 (-1074) else (((2 ^ 52 + m) : Nat) : Rat) * pow2 ((e : Int) - 1075)
+    .fin (if sign = 1 then -v else v)
+
+def parseOV (s : String) : Option OV := (parseHex s).map ofBits
+def parseFin (s : String) : Option Rat := match parseOV s with | some (.fin q) => some q | _ => none
+
+def ratStr (q : Rat) : String := toString q.num ++ "/" ++ toString q.den
+
+abbrev Table := Std.HashMap (Nat × Int × Int × Nat) OV
+
+def kindCode (s : String) : Option Nat :=
+  match s with | "e" => some 0 | "i" => some 1 | "d" => some 2 | "j" => some 3 | "s" => some 4 | _ => none
+
+def parseTable : List String → Table → Option Table
+  | [], t => some t
+  | k :: idx :: a :: v :: rest, t =>
+    match kindCode k, idx.toInt?, parseOV a, parseOV v with
+    | some kc, some i, some (.fin q), some ov => parseTable rest (t.insert (kc, i, q.num, q.den) ov)
+    | some _, some _, some _, some _ => parseTable rest t     -- non-finite argument: cannot be asked by the model
+    | _, _, _, _ => none
+  | _, _ => none
+
+def look (t : Table) (k : Nat) (i : Int) (x : Rat) : OV := t.getD (k, i, x.num, x.den) .miss
+
+def mkFn (t : Table) (dom : Dom) (accLb accUb : Rat) (mono per : Bool) (perLb perUb : Rat) (bps : List Rat) : Fn :=
+  { eval := look t 0 0, inv := look t 1, d1 := look t 2 0, invd1 := look t 3, d2 := look t 4 0,
+    dom := dom, accLb := accLb, accUb := accUb, monotone := mono, periodic := per,
+    perLb := perLb, perUb := perUb, bps := bps }
+
+def finList (l : List String) : Option (List Rat) := l.mapM parseFin
+
+def showRes (r : Res) : String :=
+  let pts := r.pl.reverse
+  " ".intercalate (["ok", ratStr r.domOut.lbx, ratStr r.domOut.ubx, ratStr r.domOut.lby, ratStr r.domOut.uby,
+    (if r.usePeriod then "1" else "0"), ratStr r.periodLength, ratStr r.facLb, ratStr r.facUb,
+    ratStr r.remLb, ratStr r.remUb, toString pts.length] ++ pts.map (fun p => ratStr p.1) ++ pts.map (fun p => ratStr p.2))
+
+def doRun (args : List String) : String :=
+  match args with
+  | isint :: rest =>
+    match finList (rest.take 5), finList ((rest.drop 5).take 6), (rest.drop 11) with
+    | some [ubErr, lbx, ubx, lby, uby], some [dl, du, dyl, dyu, al, au], mono :: per :: rest2 =>
+      match finList (rest2.take 2), (rest2.drop 2) with
+      | some [pl, pu], nb :: rest3 =>
+        match nb.toNat? with
+        | some nbp =>
+          match finList (rest3.take nbp), (rest3.drop nbp) with
+          | some bps, _n :: tab =>
+            match parseTable tab {} with
+            | some t =>
+              let f := mkFn t ⟨dl, du, dyl, dyu⟩ al au (mono == "1") (per == "1") pl pu bps
+              let p : Params := { dom := ⟨lbx, ubx, lby, uby⟩, isInt := isint == "1", ubErr := ubErr }
+              match run ieee f p 200000 with
+              | .ok r => showRes r
+              | .error e => e.toStr
+            | none => "bad-op"
+          | _, _ => "bad-op"
+        | none => "bad-op"
+      | _, _ => "bad-op"
+    | _, _, _ => "bad-op"
+  | _ => "bad-op"
+
+def doVal (args : List String) : String :=
+  match args with
+  | lbx :: ubx :: n :: rest =>
+    match parseFin lbx, parseFin ubx, n.toNat? with
+    | some l, some u, some k =>
+      match finList (rest.take k), finList ((rest.drop k).take k) with
+      | some xs, some ys =>
+        if (rest.drop k).length != k then "bad-op" else
+        let out : Output := { xs := xs, ys := ys, lbx := l, ubx := u }
+        s!"checkPL={checkPL out} ends={checkEnds out}"
+      | _, _ => "bad-op"
+    | _, _, _ => "bad-op"
+  | _ => "bad-op"
+
+def doArith (args : List String) : String :=
+  match args with
+  | [op, a, b] =>
+    match parseFin a, parseFin b with
+    | some x, some y =>
+      match op with
+      | "add" => ratStr (fadd ieee x y)
+      | "sub" => ratStr (fsub ieee x y)
+      | "mul" => ratStr (fmul ieee x y)
+      | "div" => if y = 0 then "bad-op" else ratStr (fdiv ieee x y)
+      | "sqrt" => if x < 0 then "bad-op" else ratStr (ieee.sqrt x)
+      | "tof" => ratStr (ieee.toF x)
+      | _ => "bad-op"
+    | _, _ => "bad-op"
+  | _ => "bad-op"
+
+partial def loop (h : IO.FS.Stream) (out : IO.FS.Stream) : IO Unit := do
+  let line ← h.getLine
+  if line.isEmpty then return ()
+  match line.trimAscii.toString.splitOn " " with
+  | "run" :: args => out.putStrLn (doRun args)
+  | "val" :: args => out.putStrLn (doVal args)
+  | "arith" :: args => out.putStrLn (doArith args)
+  | ["consts"] => out.putStrLn (" ".intercalate ([eps4, eps6, eps10, c1_2, cInv1_1, eps100].map ratStr))
+  | _ => out.putStrLn "bad-op"
+  loop h out
+
+def main : IO Unit := do
+  let out ← IO.getStdout
+  loop (← IO.getStdin) out
